@@ -44,7 +44,7 @@ def run(tier, seed):
         shutil.rmtree(d, ignore_errors=True)
 
     # ---- conformance: interrupt the real session at every tick
-    nprog, size, cap = (14, 3, 120) if tier == "quick" else (80, 5, 300)
+    nprog, size, cap = (14, 3, 120) if tier == "quick" else (40, 4, 200)
     progs, srcs = refrun.gen_programs(seed, nprog, size, err_rate=0.15, features={"session_safe": True, "tracer": 0.3, "ext": True})
     tres, exp = refrun.ref_expect(progs)
     ck.add_tlc(tres)
